@@ -32,7 +32,8 @@ def main():
     mod = importlib.util.module_from_spec(spec)
     spec.loader.exec_module(mod)
     flt = sys.argv[2] if len(sys.argv) > 2 else ""
-    env = dict(os.environ, VERIF_REPO=SCR, CARGO_NET_OFFLINE="true")
+    env = dict(os.environ, VERIF_REPO=SCR, CARGO_NET_OFFLINE="true", VERIF_TARGET_BASE="/tmp/mut-lead-tb")
+    os.makedirs("/tmp/mut-lead-tb", exist_ok=True)
     tier = os.environ.get("MUT_TIER", "quick")
     results = []
     for (name, file, old, new, props) in mod.MUTS:
@@ -67,7 +68,7 @@ def main():
     if not os.environ.get("KEEP"):
         shutil.rmtree(SCR, ignore_errors=True)
         shutil.rmtree("/tmp/mut-repo-target", ignore_errors=True)
-        sh("rm -rf /tmp/pvh-alt-*")
+        shutil.rmtree("/tmp/mut-lead-tb", ignore_errors=True)
     missed = [r for r in results if r[2] != "CAUGHT"]
     print(f"{len(results)} trials, {len(missed)} not caught")
 
